@@ -30,9 +30,11 @@ RULE = (
     "serializer, 6+20 field sets (20 hostile: lock / generator / uncopyable object / 600-deep list, raising __str__/__repr__, non-str dict keys, ints beyond "
     "64 bits, NaN/inf, invalid UTF-8 bytes, lone surrogate, object(), 400-deep list, self-referential "
     "list), action style, typed incl. raising serializers, exits incl. exception with raising "
-    "extractor / raising __str__, extra finishes}; sinks = (faulty, file, list), (file, faulty), "
+    "extractor (always / only from the second instance on) / raising __str__, extra finishes}; sinks = (faulty, file, list), (file, faulty), "
     "MemoryLogger; faults = every answer sequence of the faulty destination with <= r raises x "
-    "exception kinds + always-raise; non-trivial = program with a hostile value or a fault"
+    "exception kinds + always-raise; plus two threads {logging op} x {add_global_fields} with every line of "
+    "Destinations.send / addGlobalFields a scheduling point (preemption bound 2) and pairs of failing operations "
+    "interleaved inside the logging calls: no logging call may raise in any schedule; non-trivial = program with a hostile value or a fault"
 )
 ASSUMPTIONS = [
     "destinations/serializers/extractors raise Exception subclasses (not BaseException), as the statement says",
@@ -42,10 +44,10 @@ ASSUMPTIONS = [
 NFS = progs.N_ALL_FS
 SCHEMA = {
     "m": [("api", 10), ("fs", NFS)],
-    "a": [("style", 6), ("typed", 3), ("exit", 11), ("sf", NFS), ("ef", NFS), ("xf", 2)],
+    "a": [("style", 6), ("typed", 3), ("exit", 12), ("sf", NFS), ("ef", NFS), ("xf", 2)],
 }
 # ok, ValueError, StrRaises, Custom, BadExtract, BadExtract propagating, KeyboardInterrupt, ValueError one level up
-EXIT_MAP = [0, 1, 6, 3, 16, 17, 4, 11, 18, 19, 20]  # 18: exception whose extractor fails into another failing extractor; 19, 20: exception whose bool()/len() raise
+EXIT_MAP = [0, 1, 6, 3, 16, 17, 4, 11, 18, 19, 20, 21]  # 21: exception whose extractor works for the first instance and raises for later ones; 18: exception whose extractor fails into another failing extractor; 19, 20: exception whose bool()/len() raise
 
 
 def BOUNDS(tier):
@@ -54,8 +56,19 @@ def BOUNDS(tier):
     return {"plans": [[1, 3], [2, 2], [3, 1]], "raises": 2, "kinds": 3}
 
 
-def units(tier):
+def thread_harnesses(tier):
+    """Logging calls racing with add_global_fields / each other (vkit/proj.py): [harness, line-level functions, bound]"""
     out = []
+    for op in ("m", "ok", "poison", "badser", "badx"):
+        out.append([{"threads": [[op], ["gf"]], "pre_global": 2}, ["send", "addGlobalFields"], 2 if tier == "quick" else 3])
+    out.append([{"threads": [["m"], ["gf", "gf"]], "pre_global": 1}, ["send", "addGlobalFields"], 2])
+    for a, b in (("poison", "poison"), ("badser", "badx"), ("badx", "badx"), ("poison", "badser")):
+        out.append([{"threads": [[a], [b]]}, None, 99])
+    return out
+
+
+def units(tier):
+    out = [["thr", i] for i in range(len(thread_harnesses(tier)))]
     done = {}
     for n_max, devs in BOUNDS(tier)["plans"]:
         for n in range(1, n_max + 1):
@@ -82,6 +95,9 @@ def _valid(p):
 
 
 def cases(unit, tier):
+    if unit[0] == "thr":
+        yield {"thr": thread_harnesses(tier)[unit[1]]}
+        return
     n, dlo, dhi, si = unit
     for i, sh in enumerate(progs.forests(n)):
         if i == si:
@@ -139,6 +155,16 @@ def execute(prog, sink, devs, strategy=None):
 
 
 def run_case(case):
+    if "thr" in case:
+        from vkit import proj
+
+        h, funcs, bound = case["thr"]
+        try:
+            execs, states, transitions, norders, viol = proj.run(h, line_funcs=funcs, bound=bound)
+        finally:
+            world.fresh()
+        return Result(outcome=["thr", execs], nontrivial=True, executions=execs, states=states, transitions=transitions,
+                      violations=[("thr:" + s_, d) for s_, d in viol[:3]])
     prog = case["prog"]
     viol = []
     execs = 0
